@@ -22,6 +22,10 @@ type internalWriteLog [][]byte
 const (
 	internalWriteLogKindInsert = 0x01
 	internalWriteLogKindDelete = 0x02
+	// internalWriteLogKindInsertInline is an insertion where the leaf node is not stored as a
+	// standalone node (e.g. an unchanged leaf embedded in an internal node), so the rest of the
+	// entry contains the marshalled key followed by the value.
+	internalWriteLogKindInsertInline = 0x03
 )
 
 // makeInternalWriteLog converts the given write log into an internal database representation.
@@ -32,6 +36,13 @@ func makeInternalWriteLog(writeLog writelog.WriteLog, annotations writelog.Annot
 			log = append(log, append([]byte{internalWriteLogKindDelete}, entry.Key...))
 		} else {
 			iptr := annotations[i].InsertedNode.DBInternal.(*dbPtr)
+			if iptr.isInvalid() {
+				// The leaf cannot be looked up by its own database key, store it inline.
+				leafKey, _ := node.Key(entry.Key).MarshalBinary()
+				inline := append([]byte{internalWriteLogKindInsertInline}, leafKey...)
+				log = append(log, append(inline, entry.Value...))
+				continue
+			}
 			log = append(log, append([]byte{internalWriteLogKindInsert}, iptr.dbKey()...))
 		}
 	}
@@ -157,6 +168,14 @@ func (d *badgerNodeDB) GetWriteLog(_ context.Context, startRoot, endRoot node.Ro
 			default:
 				return nil, fmt.Errorf("mkvs/pathbadger: failed to fetch node: %w", err)
 			}
+		case internalWriteLogKindInsertInline:
+			// Insertion with the key and value stored inline.
+			var leafKey node.Key
+			size, err := leafKey.SizedUnmarshalBinary(key[1:])
+			if err != nil {
+				return nil, fmt.Errorf("mkvs/pathbadger: failed to unmarshal inline write log entry: %w", err)
+			}
+			wl = append(wl, writelog.LogEntry{Key: leafKey, Value: append([]byte{}, key[1+size:]...)})
 		default:
 			return nil, fmt.Errorf("mkvs/pathbadger: internal write log is corrupted")
 		}
